@@ -98,6 +98,7 @@ func ghost_closed(c chan *msgDone) bool { panic("ghost") }
 //@   modifies mapof(s.boxes)
 //@   ensures err == nil && vcHas(s.boxes, mailbox)
 //@   ensures[inv] spec_storeOK(s)
+//@   ensures[refinesStore] vcFresh(ms) || ms == nil
 //@   ensures[complete] len(ms) == len(s.boxes[mailbox].messages)
 //@   ensures[members] forall i int :: { ms[i] } 0 <= i && i < len(ms) ==> spec_inBox(s.boxes[mailbox], ms[i])
 //@   ensures[createdEmpty] !old(vcHas(s.boxes, mailbox)) ==> len(s.boxes[mailbox].messages) == 0
